@@ -108,6 +108,7 @@ class SeqMap:
     ivar: Any          # the index symbol used in `elem`
     elem: Any          # value (may mention ivar)
     note: str = ''
+    n: Any = None      # length term when known
 
 
 @dataclass(frozen=True)
@@ -120,6 +121,12 @@ class SeqScan:
     next_state: Tuple[Any, ...]   # state after one step (mentions state_syms, ivar)
     out: Any                      # output element (mentions state_syms, ivar)
     err: Any = None               # for fallible collects: condition under which the step fails
+    n: Any = None                 # length term when known
+
+
+@dataclass(frozen=True)
+class SeqConcat:
+    parts: Tuple[Any, ...]
 
 
 @dataclass(frozen=True)
